@@ -15,6 +15,7 @@ From V Require Import Base.Util Base.Strings Base.Result Model.Registry Model.Se
   Model.TypePath Model.Derives Model.Generate Model.Shape Model.RngWords Model.ExampleRust
   Model.Equal Model.Conforms Proofs.ShapeBool Proofs.GenProofs Proofs.FidelityGen Proofs.GenTotal Proofs.ExampleValueProofs
   Proofs.ExampleRustProofs Proofs.ExampleRustTotal.
+From V Require Proofs.SynKey.
 Import ListNotations.
 Open Scope list_scope.
 
@@ -830,7 +831,8 @@ Proof.
     split; [|eauto]. destruct (subs_get (s_subs s) (a0 :: a1 :: pl)); [discriminate|reflexivity]. }
   destruct Hpt as (Hsg & a0 & a1 & pl & Hpath). rewrite Hsg in Ht'.
   apply bind_ok in Ht' as (ptoks & Hpk & Ht'). unfold from_type_def_path in Hpk. rewrite Hpath in Hpk.
-  destruct (forallb ident_lexb (a0 :: a1 :: pl)) eqn:Hlex; [|discriminate].
+  destruct (forallb path_seg_okb (a0 :: a1 :: pl)) eqn:Hlex; [|discriminate].
+  apply SynKey.forallb_seg_lexb in Hlex.
   assert (Hptoks : ptoks = rel_path (s_root s :: t_path X)) by (rewrite Hpath; congruence).
   subst ptoks.
   assert (Hteq : t = TPath (rel_path (s_root s :: t_path X)) params) by congruence.
